@@ -50,6 +50,10 @@ pub struct Case {
     pub jitter: u8,
     pub policy: Policy,
     pub offers: Vec<Offer>,
+    /// traffic the receiving module offers into the same connection the other way round (ids from 1000). The two
+    /// directions of a connection have separate channel instances: busy state, queue and drops are per direction.
+    #[serde(default)]
+    pub reverse: Vec<Offer>,
     /// probe for the known finding: assert the delivery order even in the excluded region
     #[serde(default)]
     pub probe_known: bool,
@@ -63,6 +67,8 @@ pub struct C07;
 struct Sender {
     /// (absolute time, timer_first, [(id, body bytes)])
     offers: Vec<(u128, bool, Vec<(u16, u16)>)>,
+    /// the gate this module sends on ("out" of the sender, "in" of the receiver for the reverse direction)
+    gate: &'static str,
 }
 
 impl Sender {
@@ -78,12 +84,17 @@ impl Module for Sender {
         self.schedule(0);
     }
     fn handle_message(&mut self, msg: Message) {
+        if msg.header().kind != 1 {
+            let ok = msg.try_content::<Vec<u8>>().map_or(-1, |v| v.len() as i64);
+            net::log("recv", msg.header().id as i64, ok);
+            return;
+        }
         let i = msg.header().id as usize;
         let (_, timer_first, burst) = self.offers[i].clone();
         if timer_first {
             self.schedule(i + 1);
         }
-        let gate = current().gate("out", 0).expect("gate");
+        let gate = current().gate(self.gate, 0).expect("gate");
         let ch = gate.channel().expect("channel");
         for (id, body) in burst {
             send(Message::default().kind(2).id(id).with_content(vec![7u8; body as usize]), gate.clone());
@@ -96,13 +107,6 @@ impl Module for Sender {
     }
 }
 
-struct Receiver;
-impl Module for Receiver {
-    fn handle_message(&mut self, msg: Message) {
-        let ok = msg.try_content::<Vec<u8>>().map_or(-1, |v| v.len() as i64);
-        net::log("recv", msg.header().id as i64, ok);
-    }
-}
 
 struct Probe;
 impl ChannelProbe for Probe {
@@ -149,15 +153,19 @@ struct Resolved {
 }
 
 fn resolve(case: &Case) -> Resolved {
+    resolve_dir(case, &case.offers, 0)
+}
+
+fn resolve_dir(case: &Case, offers_spec: &[Offer], id_base: u16) -> Resolved {
     let bitrate = BITRATES[case.bitrate as usize % BITRATES.len()];
     let latency = LATENCIES[case.latency as usize % LATENCIES.len()] as u128;
     let jitter = JITTERS[case.jitter as usize % JITTERS.len()] as u128;
-    let mut id = 0u16;
+    let mut id = id_base;
     let mut offers = Vec::new();
     let mut t: u128 = 0;
     let mut prev_tau: u128 = 0;
     let mut all_lens: Vec<usize> = Vec::new();
-    for o in &case.offers {
+    for o in offers_spec {
         let gap = match o.gap {
             Gap::Zero => 0,
             Gap::Ns(k) => k as u128,
@@ -302,10 +310,14 @@ fn model(r: &Resolved) -> ModelOut {
 pub fn run_case(case: &Case) -> Result<(bool, Vec<&'static str>, bool), Failure> {
     let r = resolve(case);
     let m = model(&r);
+    // the other direction: same metrics (one ChannelMetrics value), its own channel state, hence its own model run
+    let mut rr = resolve_dir(case, &case.reverse, 1000);
+    rr.limit = r.limit;
+    let mr = model(&rr);
     net::log_clear();
     let mut sim = Sim::new(());
-    sim.node("s", Sender { offers: r.offers.clone() });
-    sim.node("r", Receiver);
+    sim.node("s", Sender { offers: r.offers.clone(), gate: "out" });
+    sim.node("r", Sender { offers: rr.offers.clone(), gate: "in" });
     let out = sim.gate("s", "out");
     let inp = sim.gate("r", "in");
     let behaviour = match r.limit {
@@ -313,9 +325,11 @@ pub fn run_case(case: &Case) -> Result<(bool, Vec<&'static str>, bool), Failure>
         Some(l) => ChannelDropBehaviour::Queue(l),
     };
     let metrics = ChannelMetrics::new(r.bitrate, du(r.latency), du(r.jitter), behaviour);
-    out.clone().connect(inp, Some(Channel::new(metrics)));
+    out.clone().connect(inp.clone(), Some(Channel::new(metrics)));
     out.channel().expect("channel on first hop").attach_probe(Probe);
+    inp.channel().expect("channel of the reverse direction").attach_probe(Probe);
     drop(out);
+    drop(inp);
     // slow links have transmission times of hours: use wide calendar buckets there (scan cost only)
     let width = if r.bitrate != 0 && r.bitrate < 100_000 { Duration::from_secs(5) } else { Duration::from_micros(2500) };
     let rt = Builder::seeded(11).quiet().cqueue_options(1028, width).build(sim.freeze());
@@ -325,9 +339,59 @@ pub fn run_case(case: &Case) -> Result<(bool, Vec<&'static str>, bool), Failure>
     let end = res.as_ref().map(|x| x.1.as_nanos()).unwrap_or(0);
     drop(res);
     vensure!(ok, "run-returned-error", "run() returned an error");
+    // each direction is judged on its own part of the log
+    let part = |sender: &str, fwd: bool| -> Vec<net::Rec> {
+        log.iter()
+            .filter(|x| match x.kind.as_str() {
+                "start" | "recv" => (x.a < 1000) == fwd,
+                _ => x.path == sender,
+            })
+            .cloned()
+            .collect()
+    };
+    let (nt_f, mut labels, ex_f) = check_direction(case, &r, &m, &part("s", true), "r", end, "")?;
+    let (nt_r, labels_r, ex_r) = if case.reverse.is_empty() {
+        (false, Vec::new(), false)
+    } else {
+        check_direction(case, &rr, &mr, &part("r", false), "s", end, " [reverse direction]")?
+    };
+    for l in labels_r {
+        if !labels.contains(&l) {
+            labels.push(l);
+        }
+    }
+    if !case.reverse.is_empty() {
+        labels.push("traffic-in-both-directions");
+        // busy periods of the two directions overlap in time?
+        let busy = |r: &Resolved, m: &ModelOut| -> Vec<(u128, u128)> {
+            m.start
+                .iter()
+                .map(|(id, s)| {
+                    let b = r.offers.iter().flat_map(|o| o.2.iter()).find(|x| x.0 == *id).map(|x| x.1).unwrap_or(0);
+                    (*s, *s + tau_ns(64 + b as usize, r.bitrate))
+                })
+                .collect()
+        };
+        let (bf, br) = (busy(&r, &m), busy(&rr, &mr));
+        if bf.iter().any(|a| br.iter().any(|b| a.0 < b.1 && b.0 < a.1)) {
+            labels.push("both-directions-busy-at-once");
+        }
+    }
+    Ok((nt_f || nt_r, labels, ex_f || ex_r))
+}
 
+/// The checks of one direction against its own model run.
+fn check_direction(
+    case: &Case,
+    r: &Resolved,
+    m: &ModelOut,
+    log: &[net::Rec],
+    receiver: &str,
+    end: u128,
+    which: &str,
+) -> Result<(bool, Vec<&'static str>, bool), Failure> {
     let desc = format!(
-        "bitrate={} latency={}ns jitter={}ns policy={:?} offers={:?}",
+        "bitrate={} latency={}ns jitter={}ns policy={:?} offers={:?}{which}",
         r.bitrate, r.latency, r.jitter, r.limit, r.offers
     );
     // transmission starts
@@ -345,7 +409,7 @@ pub fn run_case(case: &Case) -> Result<(bool, Vec<&'static str>, bool), Failure>
         let id = x.a as u16;
         vensure!(recv.insert(id, x.now).is_none(), "delivered-twice", "message {id} was delivered twice\n{desc}");
         recv_order.push(id);
-        vensure!(x.path == "r", "delivered-to-wrong-module", "message {id} delivered to {}", x.path);
+        vensure!(x.path == receiver, "delivered-to-wrong-module", "message {id} delivered to {}\n{desc}", x.path);
     }
     for id in &m.dropped {
         vensure!(!recv.contains_key(id), "dropped-message-delivered", "message {id} must be dropped (busy channel) but was delivered\n{desc}");
@@ -457,7 +521,8 @@ impl Prop for C07 {
         "proptest: channel metrics (bitrate in {0,1,8,1e3,1e4,1e6,1e9,2e12,usize::MAX/16}, latency in {0,1ns,1ms,50ms,3s}, jitter in {0,1us,10ms}, \
          policy Drop | Queue(None) | Queue(abs) | Queue(fit of the first k messages -1/0/+1)) x traffic: a sender with chained self-timers, each \
          offering a burst of 1..4 messages (body sizes 0..1500) with gaps 0 | ns | tau*q/4 +-1ns of the previous transmission time, the next \
-         timer scheduled before or after the burst (both tie orders). Oracle: an independent channel model on RefSim (idle -> start now, busy for \
+         timer scheduled before or after the burst (both tie orders); in 40% of the cases the receiving module offers such traffic into the \
+         same connection the other way round (separate channel instance per direction, each direction judged by its own model run). Oracle: an independent channel model on RefSim (idle -> start now, busy for \
          tau, Drop / byte-bounded FIFO queue, head starts the instant the channel is idle, zero-length transmissions chain): transmission starts \
          (probe), exactly-once delivery at start+tau+latency (+[0,jitter)), dropped never delivered, nothing stuck at the end, offer order preserved \
          with zero jitter, is_busy()/transmission_finish_time() after every offer, tau within 1 ns of the exact rational. Non-trivial iff an offer \
@@ -474,7 +539,7 @@ impl Prop for C07 {
     fn plan(tier: Tier) -> Plan {
         Plan {
             shards: tier.pick(4, 16),
-            cases_per_shard: tier.pick(2_500, 15_000),
+            cases_per_shard: tier.pick(2_500, 40_000),
             watchdog: StdDuration::from_secs(tier.pick(300, 3600)),
         }
     }
@@ -498,14 +563,16 @@ impl Prop for C07 {
             0u8..LATENCIES.len() as u8,
             prop_oneof![3 => Just(0u8), 1 => 1u8..JITTERS.len() as u8],
             policy,
-            proptest::collection::vec(offer, 1..max_offers),
+            proptest::collection::vec(offer.clone(), 1..max_offers),
+            prop_oneof![3 => Just(Vec::new()), 2 => proptest::collection::vec(offer, 1..max_offers)],
         )
-            .prop_map(|(bitrate, latency, jitter, policy, offers)| Case {
+            .prop_map(|(bitrate, latency, jitter, policy, offers, reverse)| Case {
                 bitrate,
                 latency,
                 jitter,
                 policy,
                 offers,
+                reverse,
                 probe_known: false,
             })
             .boxed()
@@ -531,6 +598,7 @@ impl Prop for C07 {
                 jitter: 0,
                 policy: Policy::QueueUnbounded,
                 offers: vec![Offer { gap: Gap::Zero, timer_first: false, burst: vec![2, 0] }],
+                reverse: Vec::new(),
                 probe_known: true,
             },
         )]
